@@ -17,6 +17,7 @@ queries:  snap <path> [nuc..]  -> [vol,density,massTotal,nd..,mass..]      nucs 
 edits (answer ok | reject):
   setnd <path> <nuc> <v>   upd <path> [nuc..] [v..]   setnds <path> [nuc..] [v..]   scale <path> <f>
   addmass <path> <nuc> <m>   setmass <path> <nuc> <m>   setmf <path> [nuc..] [f..]
+  addmasses <path> [nuc..] [m..]   setmasses <path> <traceDensity> [nuc..] [m..]
 component density (material fallback on the empty composition):  compdensity <matDensity> <isVoid T|F> [nuc..] [nd..]
 derived shape:  derived <maxArea> <height> [sibVols] [sibAreas] -> [vol,area]|reject   derivedat <maxArea> [sibAreas]
                 hexmaxarea <sqrt3> <pitch>
@@ -203,6 +204,41 @@ def step (s : St) (ws : List String) : St × String :=
       edit path (fun c => guard' (c.canSetMass ph n m) (c.setMass ph n m))
         (fun o a => guard' (canSetMass o ph a n m) (setMass o ph a n m))
     | _, _ => (s, "bad-op")
+  | ["addmasses", path, ns, ms] =>
+    match parseNatList? path, parseNatList? ns, parseRatList? ms with
+    | some p, some ns, some ms =>
+      match zipND ns ms with
+      | some d =>
+        -- a refused call keeps what the earlier addMass calls did
+        let run : Bool → Option Core := fun wantOk => editAt ph s.core p
+          (fun c => let r := addMassesWith (fun c n m => c.canAddMass ph n m) (fun c n m => c.addMass ph n m) c d
+                    if r.2 = wantOk then some r.1 else none)
+          (fun o a => let r := addMassesWith (fun a n m => canAddMass o ph a n m) (fun a n m => addMass o ph a n m) a d
+                      if r.2 = wantOk then some r.1 else none)
+        match run true with
+        | some c => ({ s with core := c }, "ok")
+        | none => match run false with
+          | some c => ({ s with core := c }, "reject")
+          | none => (s, "bad-op")
+      | none => (s, "bad-op")
+    | _, _, _ => (s, "bad-op")
+  | ["setmasses", path, tr, ns, ms] =>
+    match parseNatList? path, parseRat? tr, parseNatList? ns, parseRatList? ms with
+    | some p, some tr, some ns, some ms =>
+      match zipND ns ms with
+      | some d =>
+        let run : Bool → Option Core := fun wantOk => editAt ph s.core p
+          (fun c => let r := setMassesWith (Comp.clearNDs tr) (fun c n m => c.canSetMass ph n m) (fun c n m => c.setMass ph n m) c d
+                    if r.2 = wantOk then some r.1 else none)
+          (fun o a => let r := setMassesWith (clearNDs o tr) (fun a n m => canSetMass o ph a n m) (fun a n m => setMass o ph a n m) a d
+                      if r.2 = wantOk then some r.1 else none)
+        match run true with
+        | some c => ({ s with core := c }, "ok")
+        | none => match run false with
+          | some c => ({ s with core := c }, "reject")
+          | none => (s, "bad-op")
+      | none => (s, "bad-op")
+    | _, _, _, _ => (s, "bad-op")
   | ["setmf", path, ns, fs] =>
     match parseNatList? ns, parseRatList? fs with
     | some ns, some fs =>
